@@ -282,6 +282,18 @@ Definition strided (d : A) (n : nat) (l : list A) : list (list A) :=
   map (fun j => map (fun r => nth (j + r * m) l d) (seq 0 n)) (seq 0 m).
 End Marg.
 
+(* ---- AugmentedFlowProposal.log_prior (marginalise_augment = False): the log-prior that enters the weights is the model's
+   log-prior plus log N(e_k) summed over ALL augment parameters - the product prior on the augmented space.  Stated over an
+   arbitrary carrier with addition; instantiated at Z for the theorems and at IEEE values in Run/C09_run.v. *)
+Section AugPrior.
+Context {T : Type}.
+Variables (add : T -> T -> T) (zero : T).
+Definition augmented_prior (es : list T) : T := fold_left add es zero.             (* log_p = 0; for n: log_p += logpdf(x[n]) *)
+Definition full_prior (m : T) (es : list T) : T := add m (augmented_prior es).     (* super().log_prior(x) + augmented_prior(x) *)
+(* refuted variant: `log_p = ...` instead of `log_p += ...` keeps only the last factor *)
+Definition last_only_prior (m : T) (es : list T) : T := add m (last es zero).
+End AugPrior.
+
 Definition prior_finite (c : cand) : bool := is_fin (lp c).
 (* np.isfinite(log_prior(p)) / np.isfinite(points["logP"]) *)
 Definition new_points (N : nat) (bs : list (list cand)) := fill_loop prior_finite N [] bs.
